@@ -156,6 +156,21 @@ PROPS["C11"] = dict(_QUERY_COMMON,
          "time anchors and strings, incl. empty patterns and singleton groups; the arrival order of rows at Table.Reduce is owned by the simulator (driver completion order, emission "
          "permutation, map order). int64 sums compared exactly, float64 sums to 9 significant digits. Non-trivial: non-empty reference result")
 
+PROPS["C12"] = dict(_QUERY_COMMON,
+    components_stub=["simulated storage driver, fault-free (gate, pacing, permuted emission: the LIMIT push-down into the driver crosses this seam)", "seeded scheduler in a synctest bubble"],
+    rule="numeric- and anchor-heavy data (negative / fractional / extreme numbers, anchors of several precisions, text, nodes) and base queries of 1-2 clauses, optionally grouped; "
+         "for each base query Q the variants Q, Q+ORDER BY keys (1-2 keys, ASC/DESC, repeated keys, aliases, aggregate outputs), Q+ORDER BY+LIMIT n and Q+LIMIT n for n in {0,1,2,3,5,50} "
+         "and Q with four invalid limits, each variant under its own drawn schedule / driver behaviour / knobs. Oracle (no mirrored sort): ordered result is a permutation of the "
+         "unordered one; adjacent rows are in order under the property's comparator (int64 / float64 numerically, anchors chronologically, else printed form; pairs with keys of "
+         "different kinds are not judged); LIMIT n returns min(n,N) rows of the query, sorted, and no omitted row sorts before the last returned one; invalid limits are rejected. "
+         "evaluations = executed variants; non-trivial: base result has >= 2 rows; distinct = distinct (base query, keys, data)")
+PROPS["C14"] = dict(_QUERY_COMMON,
+    components_stub=["simulated storage driver, fault-free", "seeded scheduler in a synctest bubble"],
+    rule="for a generated (data, SELECT without LIMIT / FILTER) the multiset of rows - the sequence when ORDER BY lists every output column - must be identical across: 4 re-executions under "
+         "other tapes (driver completion order, emission order, pacing, chanSize, bulkSize, processor count, memoization, map iteration seed), a consistent renaming of all bindings, the "
+         "data partitioned over 2 and 3 FROM graphs, two random permutations of the clauses (when none is OPTIONAL); and the result over a superset of the data contains the result "
+         "(no OPTIONAL / aggregate). evaluations = executed variants; non-trivial: non-empty base result; distinct = distinct (query, data)")
+
 # ---------------------------------------------------------------------------
 # Texts for MANIFEST.json (level claimed, trusted base, technique)
 MANIFEST_TEXT = {}
@@ -203,3 +218,11 @@ MANIFEST_TEXT["C11"] = dict(
     text="as C03, for GROUP BY queries; row arrival order at the reducer (the thing its non-total comparator is sensitive to) is decided by the seed",
     note=_q_note,
     technique="deterministic simulation of the real planner over a simulated driver (seeded row arrival order) + refinement against reference grouping and aggregation")
+MANIFEST_TEXT["C12"] = dict(
+    text="metamorphic check over executions of Q / Q+ORDER BY / Q+ORDER BY+LIMIT n / Q+LIMIT n, each under its own seeded schedule and driver behaviour, against the property's comparator",
+    note="trusted base: the comparator written from the property statement (x/harness/meta.go cmpCells), x/sim, simulated driver; keys of mixed kinds are not judged",
+    technique="deterministic simulation of the real planner over a simulated driver + metamorphic oracle (permutation, sortedness, valid prefix) across independently scheduled variants")
+MANIFEST_TEXT["C14"] = dict(
+    text="purely metamorphic: the same query meaning executed under different schedules, knobs, renamings, clause orders, data partitions and data supersets must give the same (or a containing) result",
+    note="trusted base: x/sim, simulated driver, canonical row rendering; no reference model involved",
+    technique="deterministic simulation of the real planner over a simulated driver; metamorphic comparison of variants each run under its own seeded schedule, configuration and map-iteration seed")
